@@ -8,7 +8,7 @@ Open Scope string_scope.
 Open Scope list_scope.
 
 (* ---- the property over everything that is probed: a request that returns quietly was well-formed ---- *)
-(* Full statement (F1-F5 repaired: D48, D49, D76, D79, D109; one finding open: F6): *)
+(* Full statement (F1-F6 repaired: D48, D49, D76, D79, D109, D113): *)
 Definition C20_full : Prop := C20_full_statement.
 (* = forall p, WFprobe p -> impl p = Ok -> WellFormed p *)
 
@@ -21,14 +21,18 @@ Theorem C20_malformed_is_loud : forall p, WFprobe p -> guard p = true -> ~ WellF
 Proof. exact malformed_is_loud. Qed.
 Print Assumptions C20_malformed_is_loud.
 
-(* HEADLINE on the current tree (F1-F5 repaired by D48, D49, D76, D79, D109: Guards.fixed_F3 = fixed_F4 = fixed_F5 = true): the
-   full statement holds for every probe except get_run_func / get_jacobian_func with a solver the backend does not have
-   (finding F6: `solver=` is not validated there, a function is returned; switch Guards.fixed_F6) *)
+(* HEADLINE (F1-F6 repaired by D48, D49, D76, D79, D109, D113: all four model switches of Guards.v are true): the full
+   statement, no guard: every request that returns quietly was supported / well-formed *)
+Theorem C20_full_holds : C20_full_statement.
+Proof. exact (GuardsProofs.C20_full_when_fixed eq_refl eq_refl eq_refl eq_refl). Qed.
+Print Assumptions C20_full_holds.
+Theorem C20_full_malformed_is_loud : forall p, WFprobe p -> ~ WellFormed p -> loud_enough p (impl p).
+Proof. exact (GuardsProofs.malformed_is_loud_when_fixed eq_refl eq_refl eq_refl eq_refl). Qed.
+Print Assumptions C20_full_malformed_is_loud.
+(* the general forms, valid whatever the switches say, and the refutations of the code as it was before each repair *)
 Theorem C20_full_holds_modulo_F6 : forall p, WFprobe p -> guard_solver_checked_at_entry p = true -> impl p = Ok -> WellFormed p.
 Proof. exact (GuardsProofs.C20_full_modulo_F6_when_others_fixed eq_refl eq_refl eq_refl). Qed.
 Print Assumptions C20_full_holds_modulo_F6.
-(* with /verif/fixes/proposed_fix_C20_solver_in_get_run_func.diff and fixed_F6 := true:
-   `C20_full_holds := C20_full_when_fixed eq_refl eq_refl eq_refl eq_refl` (no guard) *)
 Theorem C20_full_when_fixed : fixed_F3 = true -> fixed_F4 = true -> fixed_F5 = true -> fixed_F6 = true -> C20_full_statement.
 Proof. exact GuardsProofs.C20_full_when_fixed. Qed.
 Print Assumptions C20_full_when_fixed.
@@ -36,10 +40,10 @@ Theorem C20_full_malformed_is_loud_when_fixed : fixed_F3 = true -> fixed_F4 = tr
   forall p, WFprobe p -> ~ WellFormed p -> loud_enough p (impl p).
 Proof. exact GuardsProofs.malformed_is_loud_when_fixed. Qed.
 Print Assumptions C20_full_malformed_is_loud_when_fixed.
-Theorem C20_refuted_solver_in_get_run_func : fixed_F6 = false ->
+Theorem C20_refuted_solver_in_get_run_func_before_fix : fixed_F6 = false ->
   ~ C20_full_statement /\ guard_solver_checked_at_entry F6_probe = false.
 Proof. exact GuardsProofs.C20_refuted_solver_in_get_run_func. Qed.
-Print Assumptions C20_refuted_solver_in_get_run_func.
+Print Assumptions C20_refuted_solver_in_get_run_func_before_fix.
 Theorem C20_solver_in_get_run_func_repaired : forall c, accepts_gen true c = Ok <-> Supported c.
 Proof. exact solver_in_get_run_func_repaired. Qed.
 Print Assumptions C20_solver_in_get_run_func_repaired.
